@@ -705,6 +705,69 @@ func hugeFamily(tier string) *core.Family {
 	}
 }
 
+// degenerate names: an entity stored under the zero EntityUID, under an empty type, an empty
+// id, ids with control characters; `in` is reachability over whatever uids the store holds.
+func degenerateUIDFamily() *core.Family {
+	odd := []types.EntityUID{{}, {Type: "", ID: "x"}, {Type: "A", ID: ""}, {Type: "A::B", ID: "\x00"}, {Type: "A", ID: "a\"b"}, {Type: "__cedar", ID: "x"}}
+	a, b, c := types.NewEntityUID("A", "a"), types.NewEntityUID("B", "b"), types.NewEntityUID("A", "c")
+	type cs struct {
+		desc  string
+		chain []types.EntityUID
+	}
+	var cases []cs
+	for _, z := range odd {
+		cases = append(cases,
+			cs{fmt.Sprintf("%q first", z.String()), []types.EntityUID{z, a, b, c}},
+			cs{fmt.Sprintf("%q second", z.String()), []types.EntityUID{a, z, b, c}},
+			cs{fmt.Sprintf("%q third", z.String()), []types.EntityUID{a, b, z, c}},
+			cs{fmt.Sprintf("%q last", z.String()), []types.EntityUID{a, b, c, z}},
+		)
+	}
+	return &core.Family{
+		Name: "degenerate-uids",
+		Desc: fmt.Sprintf("%d chains of four entities with the zero EntityUID, an empty type, an empty id, a NUL id, a quoted id or a reserved-looking type at each position: every ordered pair on Eval in / in-set, Authorize scope in / in-set and PartialPolicy scope", len(cases)),
+		N:    int64(len(cases)),
+		Run: func(t *core.T, i int64) {
+			ch := cases[i].chain
+			em := types.EntityMap{}
+			for j, u := range ch {
+				var ps []types.EntityUID
+				if j+1 < len(ch) {
+					ps = append(ps, ch[j+1])
+				}
+				em[u] = types.Entity{UID: u, Parents: types.NewEntityUIDSet(ps...)}
+			}
+			for x := range ch {
+				for y := range ch {
+					ua, ub, want := ch[x], ch[y], x <= y
+					env := eval.Env{Entities: em, Principal: ua, Action: ua, Resource: ua, Context: types.Record{}}
+					req := cedar.Request{Principal: ua, Action: ua, Resource: ua}
+					in := fmt.Sprintf("chain %v: %s in %s", ch, ua, ub)
+					if v, err := eval.Eval(xast.Value(ua).In(xast.Value(ub)).AsIsNode(), env); err != nil || v != types.Boolean(want) {
+						t.Fail("eval-in:wrong", in, fmt.Sprint(want), fmt.Sprintf("%v, %v", v, err))
+					}
+					if v, err := eval.Eval(xast.Value(ua).In(xast.Value(types.NewSet(never, ub))).AsIsNode(), env); err != nil || v != types.Boolean(want) {
+						t.Fail("eval-in-set:wrong", in, fmt.Sprint(want), fmt.Sprintf("%v, %v", v, err))
+					}
+					pa := xast.Permit().PrincipalIn(ub)
+					if dec, diag := cedar.Authorize(one(pa), em, req); bool(dec) != want || len(diag.Errors) != 0 {
+						t.Fail("authorize-principal-in:wrong", in, fmt.Sprint(want), fmt.Sprintf("%v %v", dec, diag.Errors))
+					}
+					if dec, diag := cedar.Authorize(one(xast.Permit().ActionInSet(never, ub)), em, req); bool(dec) != want || len(diag.Errors) != 0 {
+						t.Fail("authorize-action-in-set:wrong", in, fmt.Sprint(want), fmt.Sprintf("%v %v", dec, diag.Errors))
+					}
+					if _, keep := eval.PartialPolicy(env, pa); keep != want {
+						t.Fail("partial-principal-in:wrong", in, fmt.Sprint(want), fmt.Sprint(keep))
+					}
+				}
+			}
+			t.Nontrivial()
+			t.AddStates(1)
+			t.Sample(cases[i].desc)
+		},
+	}
+}
+
 func Check() *core.Check {
 	return &core.Check{
 		ID:        "C03",
@@ -717,9 +780,9 @@ func Check() *core.Check {
 			fams := []*core.Family{family(1), family(2), family(3)}
 			f4 := family(4)
 			if tier == "thorough" {
-				return append(fams, f4, shapeFamily(24, 80, 8), hugeFamily(tier))
+				return append(fams, f4, shapeFamily(24, 80, 8), hugeFamily(tier), degenerateUIDFamily())
 			}
-			return append(fams, f4, shapeFamily(12, 40, 6), hugeFamily(tier))
+			return append(fams, f4, shapeFamily(12, 40, 6), hugeFamily(tier), degenerateUIDFamily())
 		},
 	}
 }
